@@ -28,3 +28,4 @@ def run(ctx):
     from . import round3 as R3
     R3.r03_10_registered_is_given(ctx, 'R10.7')
     S.r01_2_gate(ctx)
+    R3.r10_8_each_class_once(ctx)
